@@ -414,7 +414,7 @@ func (c *Ctx) checkFrame(s *State, snap map[string]string, mods []modEntry, allo
 			continue
 		}
 		r := c.freshConst(s, "fr", SRef)
-		prem := []string{fmt.Sprintf("(< (rootid %s) %s)", r, allocBase)}
+		prem := []string{fmt.Sprintf("(< (rootid %s) %s)", r, allocBase), fmt.Sprintf("(not (= %s rnil))", r)}
 		needIdx := false
 		for _, m := range es {
 			if m.kind == modElemAt {
